@@ -143,6 +143,7 @@ func runC06(c *Ctx) {
 	ruleHasBodyGate(c, "R06.0")
 	ruleContentTypeAccessorParses(c, "R06.1")
 	ruleRoutableAPIDelegates(c, "R06.4", "ConsumersFor", "DefaultConsumes")
+	ruleFreshMatchedRoute(c, "R06.3", "the matched route — whose Consumer field the content-type stage fills only when it is still empty — is allocated for one lookup: the consumer picked for one request's media type never decodes another request's body", "the route returned by Lookup outlives the request (the Consumer chosen for an earlier request would be kept)")
 
 	type gate struct {
 		fn        string
